@@ -43,7 +43,8 @@ def gen_cases(rng, n):
                     constrained=rng.choice([0.05, 0.2, 0.4]), subst=rng.choice([0.03, 0.1, 0.2]))
         hg = G.HistGen(rng, cfg, notation=rng.choice([0, 0.15, 0.4]), wrong=rng.choice([0, 0, 0.01]),
                        wild=rng.choice([0, 0.03, 0.1]))
-        claims, calls, _ = hg.module_history(rng.randrange(0, 4), rng.randrange(0, 4), rng.choice([0.1, 0.3, 0.5]))
+        claims, calls, _ = hg.module_history(rng.randrange(0, 4), rng.choice([0, 1, 2, 2, 3, 4]), rng.choice([0.1, 0.3, 0.5]),
+                                             permute=rng.choice([0, 0, 0.5, 1.0]), repeat_ax=rng.choice([0, 0.3, 0.6]))
         cases.append(dict(claims=claims, calls=calls))
     return cases
 
